@@ -31,6 +31,7 @@ RULE = ("1..2 function definitions whose bodies are grammar programs over 1..4 "
         " C code agrees with NumPy.  non-trivial = >= 2 call sites, or "
         "nesting, or a name coincidence between caller and callee; distinct "
         "by canonical JSON")
+RULE += '  Round-4 addition: a traced call whose result is not an array where the direct call returns one is a violation (was a harness error).'
 ASSUMPTIONS = [
     "callee bodies use exact (integer/dyadic) arithmetic, index remapping, "
     "reductions, comparisons and contractions so that every call with fresh "
